@@ -10,7 +10,7 @@ Definition rec_stores (gunzip : bytes -> option bytes) (compression pgsz : N)
            (p : lk_page) (pc : N * bytes) : Prop :=
   lp_pfn p = fst pc /\ len (snd pc) = pgsz /\ len (lp_payload p) < 2^32 /\
   ((lp_flags p = 1 /\ lp_payload p = snd pc) \/
-   (lp_flags p = 2 /\ len (lp_payload p) <= MAX_PAGE_SIZE /\
+   (lp_flags p = 2 /\ len (lp_payload p) <= pgsz /\
     ((compression = 1 /\ exists ts, Forall tok_ok ts /\ lp_payload p = rle_render ts /\
                                     rle_expand ts = snd pc) \/
      (compression = 2 /\ gunzip (lp_payload p) = Some (snd pc))))).
@@ -416,7 +416,7 @@ Section Roundtrip.
     let type := N.land (get32 (lk_be st) dp 12) 3 in
     let pgsz := lk_page_size st in
     if type =? DUMP_COMPRESSED then
-      if MAX_PAGE_SIZE <? size then (Err ERR_CORRUPT, st) else
+      if pgsz <? size then (Err ERR_CORRUPT, st) else
       let buf := rd 0 (o + 16) size in
       if lk_compression st =? COMPRESS_RLE then
         match uncompress_rle buf pgsz with
@@ -454,7 +454,7 @@ Section Roundtrip.
       change (N.land 1 3 =? DUMP_RAW) with true. cbv iota.
       rewrite (rd_payload i p Hp). rewrite Hraw, Hlen, N.eqb_refl. reflexivity.
     - change (N.land 2 3 =? DUMP_COMPRESSED) with true. cbv iota.
-      destruct (N.ltb_spec MAX_PAGE_SIZE (len (lp_payload p))); [lia |].
+      destruct (N.ltb_spec pgsz (len (lp_payload p))); [lia |].
       rewrite (rd_payload i p Hp).
       destruct Hcomp as [[Hc [ts [Hts [Hren Hexp]]]] | [Hc Hgz]]; rewrite Hc.
       + change (1 =? COMPRESS_RLE) with true. cbv iota.
